@@ -286,7 +286,7 @@ CLAIMED = {
                 "1x1..3x3 split grids x swap/cut/collapse, plain/anchored/multi-surface/pre-refined meshes, adaptive histories, tx blocks "
                 "on the real kernels vs the model; independent oracle on exact Fractions (triangles, counts, areas, coordinates, flags, "
                 "anchors, orientation). Props/C15b.lean: b-level topology theorems on arbitrary WF maps for swap (twelve images, frame, triangles), outer and inner cut (spare darts placed as documented, pairings, frame), cells and face iterator after cut_outer_edge, midpoint at the vertex id in the FINAL map, and collapse_edge itself (interior edge, no anchors): WF unconditionally, exactly the six triangle darts flagged and free, neighbours re-glued, frame.",
-        "note": "Partial: the property is FALSE on the current tree in the recorded ways (known findings D9, D15a, D15d, D15e, D15f, each with a "
+        "note": "Props/C15d.lean: anchors after cut_outer_edge / cut_inner_edge as theorems for every subset of the anchor storages (every slot of every storage), the inner cut never succeeds on a map with a VertexAnchor storage (theorem), collapse: no FaceAnchor slot is ever written (root of D15a), end-point target, midpoint vertex count under a hypothesis excluding D15f. Partial: the property is FALSE on the current tree in the recorded ways (known findings D9, D15a, D15d, D15e, D15f, each with a "
                 "structural matcher; D9, D15a,d,e also with decide witnesses in Lean, D15f by replay only; D15b, D15c, D15g repaired). "
                 "C15b: b-level topology of swap/cuts on arbitrary WF maps; C15c: V/E/F counts through the iterators for swap, cuts and the "
                 "interior midpoint collapse, inner-cut cells and final-map midpoint, C15_swap_cells and C15_swap_moves_corners (D9 "
@@ -312,9 +312,12 @@ CLAIMED = {
                 "edge_data, insert_edges, clip_left, clip_right} (identical text on the exact family). Props/C16Chain.lean chains steps 1-5: for every "
                 "grid and geometry in general position, if the run succeeds every crossing of a segment with a grid line "
                 "(C16_crossings_are_vertices) and every point of interest on a chain between two crossings (C16_poi_are_vertices) is a "
-                "vertex of the result at its coordinates, under four named hypotheses (SideCoords, KeysOK, EdgeDartsInUse, OnChain) that "
-                "the tie evaluates on every case. NOT proved: that step 5 never fails (success is a hypothesis), the four hypotheses "
-                "themselves, f64 rounding, the other end-to-end geometric clauses (areas, tiling, coverage, sides: exact oracle on the "
+                "vertex of the result at its coordinates, ; EdgeDartsInUse and KeysOK are proved, SideCoords is proved on the grid of the model's builder "
+                "(C16ChainGrid: the _on_grid forms carry no hypothesis about the map); success: C16_buildBaseEdge_ok_iff, forward totality of "
+                "insert_vertices_on_edge, of steps 2-3 (C16_steps23_total_on_grid: every geometry in general position inside the margins, "
+                "every HashMap order) and of step 5 under decidable conditions the tie evaluates (pipelineReadyAll). Remaining hypotheses: "
+                "two HashMap facts (KeysAreHitEdges, step-4 keys are intersections), OnChain (false exactly for D16a), Ready / Valued / "
+                "Indep of the step-4 edges. NOT proved: f64 rounding, the other end-to-end geometric clauses (areas, tiling, coverage, sides: exact oracle on the "
                 "implementation). Known findings D16a (a boundary loop inside one cell is dropped) "
                 "and D16b (negatively oriented face on a same-side dip); D16c repaired (2e893a8).",
         "design_ref": "DESIGN.md §7 C16",
